@@ -22,7 +22,7 @@ func init() { registry["C18"] = runC18 }
 func runC18(c *sim.Ctx, t *testing.T) {
 	sim.Install(c)
 	defer sim.Uninstall()
-	cfg := genCfg{native: true, stubs: true, failOps: true, nullRet: true, permanents: true, guards: true, guardEmits: true, loops: true, maxNodes: 5}
+	cfg := genCfg{native: true, stubs: true, failOps: true, nullRet: true, permanents: true, guards: true, guardEmits: true, loops: true, maxNodes: 5, inPlace: true}
 	gs := genSpec(c, cfg)
 	spec, err := compile(gs)
 	if err != nil {
